@@ -694,6 +694,12 @@ impl Vm {
         while !self.is_at_the_end() {
             self.debug();
 
+            #[cfg(feature = "verif")]
+            {
+                let frame = self.current_frame();
+                let byte = self.bytecode[frame.function_idx].1[frame.ip];
+                crate::verif::on_fetch(byte, Op::Return as u8, frame.function_idx, frame.ip);
+            }
             let op = unsafe { std::mem::transmute::<u8, Op>(self.read_byte()) };
 
             match op {
@@ -778,6 +784,8 @@ impl Vm {
                         result
                             .map_err(|e| self.runtime_error(RuntimeErrorKind::QuantityError(e)))?,
                     );
+                    #[cfg(feature = "verif")]
+                    self.verif_emit_op_result(op.to_string());
                 }
                 op @ (Op::AddToDateTime | Op::SubFromDateTime) => {
                     let rhs = self.pop_quantity();
@@ -884,6 +892,8 @@ impl Vm {
                 Op::Negate => {
                     let rhs = self.pop_quantity();
                     self.push_quantity(-rhs);
+                    #[cfg(feature = "verif")]
+                    self.verif_emit_op_result("Negate");
                 }
                 Op::Factorial => {
                     let lhs = self
@@ -919,6 +929,8 @@ impl Vm {
                 Op::Call => {
                     let function_idx = self.read_u16() as usize;
                     let num_args = self.read_u16() as usize;
+                    #[cfg(feature = "verif")]
+                    self.verif_emit_call(function_idx, num_args);
                     self.frames.push(CallFrame {
                         function_idx,
                         ip: 0,
@@ -966,6 +978,8 @@ impl Vm {
                             let result = (function)(&mut ffi_ctx, args, return_type)
                                 .map_err(|e| self.runtime_error(*e))?;
                             self.push(result);
+                            #[cfg(feature = "verif")]
+                            self.verif_emit_ffi_return(function_idx);
                         }
                         Callable::Procedure(procedure) => {
                             let result = (procedure)(ctx, args);
@@ -989,6 +1003,8 @@ impl Vm {
                             let function_idx = self.get_function_idx(name) as usize;
 
                             // TODO: unify code with 'Op::Call'?
+                            #[cfg(feature = "verif")]
+                            self.verif_emit_call(function_idx, num_args);
                             self.frames.push(CallFrame {
                                 function_idx,
                                 ip: 0,
@@ -1022,6 +1038,8 @@ impl Vm {
                                     let result = (function)(&mut ffi_ctx, args, return_type)
                                         .map_err(|e| self.runtime_error(*e))?;
                                     self.push(result);
+                                    #[cfg(feature = "verif")]
+                                    self.verif_emit_ffi_return(function_idx);
                                 }
                                 Callable::Procedure(..) => unreachable!(
                                     "Foreign procedures can not be targeted by a function reference"
@@ -1146,6 +1164,8 @@ impl Vm {
 
                         // Push the return value back on top of the stack
                         self.stack.push(return_value);
+                        #[cfg(feature = "verif")]
+                        self.verif_emit_return(discarded_frame.function_idx);
                     }
                 }
                 Op::BuildStructInstance => {
@@ -1221,6 +1241,75 @@ impl Vm {
 
     fn print(&self, ctx: &mut ExecutionContext, m: &Markup) {
         (ctx.print_fn)(m);
+    }
+}
+
+#[cfg(feature = "verif")]
+pub(crate) fn verif_opcode_name(byte: u8) -> Option<&'static str> {
+    if byte <= Op::Return as u8 {
+        // Sound: `Op` is `repr(u8)` with consecutive discriminants and `Return` is the last one.
+        Some(unsafe { std::mem::transmute::<u8, Op>(byte) }.to_string())
+    } else {
+        None
+    }
+}
+
+/// Read-only accessors and event emitters for the `verif` hooks.
+#[cfg(feature = "verif")]
+impl Vm {
+    pub(crate) fn verif_stack(&self) -> &[Value] {
+        &self.stack
+    }
+
+    pub(crate) fn verif_num_frames(&self) -> usize {
+        self.frames.len()
+    }
+
+    pub(crate) fn verif_chunk_len(&self, idx: usize) -> usize {
+        self.bytecode.get(idx).map_or(0, |c| c.1.len())
+    }
+
+    /// Span of the instruction the given frame is executing (or has just executed).
+    fn verif_span_of(&self, frame: &CallFrame) -> Span {
+        self.bytecode[frame.function_idx].2[frame.ip.saturating_sub(1)]
+    }
+
+    fn verif_emit_op_result(&self, op: &'static str) {
+        crate::verif::emit(|| crate::verif::Event::OpResult {
+            op,
+            span: self.verif_span_of(self.current_frame()),
+            depth: self.frames.len(),
+            value: self.stack.last().unwrap().clone(),
+        });
+    }
+
+    /// To be called right before the callee's frame is pushed.
+    fn verif_emit_call(&self, function_idx: usize, num_args: usize) {
+        crate::verif::emit(|| crate::verif::Event::Call {
+            callee: self.bytecode[function_idx].0.clone(),
+            span: self.verif_span_of(self.current_frame()),
+            depth: self.frames.len() + 1,
+            args: self.stack[self.stack.len() - num_args..].to_vec(),
+        });
+    }
+
+    /// To be called right after the callee's frame has been popped and the value pushed.
+    fn verif_emit_return(&self, function_idx: usize) {
+        crate::verif::emit(|| crate::verif::Event::Return {
+            callee: self.bytecode[function_idx].0.clone(),
+            span: self.verif_span_of(self.current_frame()),
+            depth: self.frames.len() + 1,
+            value: self.stack.last().unwrap().clone(),
+        });
+    }
+
+    fn verif_emit_ffi_return(&self, ffi_idx: usize) {
+        crate::verif::emit(|| crate::verif::Event::FfiReturn {
+            callee: (*self.ffi_callables.get_index(ffi_idx).unwrap().0).into(),
+            span: self.verif_span_of(self.current_frame()),
+            depth: self.frames.len(),
+            value: self.stack.last().unwrap().clone(),
+        });
     }
 }
 
